@@ -89,3 +89,186 @@ Section Single.
     - exact (IH (state_new_hv lss expm p Fv dt H)).
   Qed.
 End Single.
+
+(* ---- bounds on the integration factor, and the two limits for one branch *)
+Lemma fac_bounds dt tau : 0 < dt -> 0 < tau -> 0 <= 1 - fac dt tau <= dt / tau /\ 0 <= fac dt tau <= tau / dt.
+Proof.
+  intros Hd Ht. destruct (fac_pos dt tau Hd Ht) as [F0 F1]. assert (Hr : 0 < dt / tau) by (apply Rdiv_lt_0_compat; lra).
+  assert (E : fac dt tau * (1 + dt / tau) = 1) by (unfold fac; field; split; [lra | pose proof (den_ne dt tau Hd Ht); lra]).
+  assert (E2 : dt / tau * (tau / dt) = 1) by (field; lra).
+  assert (Hq : 0 < tau / dt) by (apply Rdiv_lt_0_compat; lra).
+  repeat split; try lra; nra.
+Qed.
+
+Section Limits1.
+  Variables (lss : M -> M) (K G Gn tau : R) (Fv H : M).
+  Let p : p4 := (K, G, Gn, tau).
+  Hypothesis Htau : 0 < tau.
+  Hypothesis HG : 0 <= Gn.
+  Let c := Gn * nds (Etrial lss H Fv).
+  (* instantaneous response: the branch spring carries the whole trial strain; equilibrium response: it carries nothing *)
+  Definition W_inst_hv : R := E_hv_eq p H + Wneq_hv p (Etrial lss H Fv).
+  Definition W_eq_hv : R := E_hv_eq p H.
+
+  Lemma c_nonneg : 0 <= c.
+  Proof. unfold c. apply Rmult_le_pos; [exact HG | apply nds_nonneg]. Qed.
+
+  Lemma hv_bound_small_dt dt : 0 < dt -> Rabs (E_hv lss p Fv dt H - W_inst_hv) <= c * (dt / tau).
+  Proof.
+    intros Hd. unfold W_inst_hv, p. rewrite (E_hv_closed lss K G Gn tau Htau Fv dt H Hd), Wneq_hv_form. fold c.
+    destruct (fac_bounds dt tau Hd Htau) as [[B1 B2] _]. pose proof c_nonneg.
+    replace (E_hv_eq (K, G, Gn, tau) H + c * fac dt tau - (E_hv_eq (K, G, Gn, tau) H + c)) with (- (c * (1 - fac dt tau))) by ring.
+    rewrite Rabs_Ropp, Rabs_pos_eq by (apply Rmult_le_pos; lra). apply Rmult_le_compat_l; lra.
+  Qed.
+  Lemma hv_bound_large_dt dt : 0 < dt -> Rabs (E_hv lss p Fv dt H - W_eq_hv) <= c * (tau / dt).
+  Proof.
+    intros Hd. unfold W_eq_hv, p. rewrite (E_hv_closed lss K G Gn tau Htau Fv dt H Hd). fold c.
+    destruct (fac_bounds dt tau Hd Htau) as [_ [B1 B2]]. pose proof c_nonneg.
+    replace (E_hv_eq (K, G, Gn, tau) H + c * fac dt tau - E_hv_eq (K, G, Gn, tau) H) with (c * fac dt tau) by ring.
+    rewrite Rabs_pos_eq by (apply Rmult_le_pos; lra). apply Rmult_le_compat_l; lra.
+  Qed.
+  (* the two limits, in epsilon form *)
+  Lemma hv_limit_dt_to_0 eps : 0 < eps -> exists delta, 0 < delta /\ forall dt, 0 < dt < delta -> Rabs (E_hv lss p Fv dt H - W_inst_hv) < eps.
+  Proof.
+    intros He. pose proof c_nonneg as Hc. exists (eps * tau / (c + 1)). split; [apply Rdiv_lt_0_compat; [apply Rmult_lt_0_compat |]; lra |].
+    intros dt [Hd Hlt]. eapply Rle_lt_trans; [apply hv_bound_small_dt; exact Hd |].
+    assert (Hx : dt * (c + 1) < eps * tau) by (apply (Rmult_lt_reg_r (/ (c + 1))); [apply Rinv_0_lt_compat; lra |];
+      rewrite Rmult_assoc, Rinv_r by lra; unfold Rdiv in Hlt; lra).
+    apply (Rmult_lt_reg_r tau); [exact Htau |]. unfold Rdiv. rewrite !Rmult_assoc, Rinv_l by lra. nra.
+  Qed.
+  Lemma hv_limit_dt_to_infinity eps : 0 < eps -> exists T, 0 < T /\ forall dt, T < dt -> Rabs (E_hv lss p Fv dt H - W_eq_hv) < eps.
+  Proof.
+    intros He. pose proof c_nonneg as Hc. exists ((c + 1) * tau / eps). split; [apply Rdiv_lt_0_compat; [apply Rmult_lt_0_compat |]; lra |].
+    intros dt Hlt. assert (HT : 0 < (c + 1) * tau / eps) by (apply Rdiv_lt_0_compat; [apply Rmult_lt_0_compat |]; lra).
+    assert (Hd : 0 < dt) by lra. eapply Rle_lt_trans; [apply hv_bound_large_dt; exact Hd |].
+    assert (Hx : (c + 1) * tau < dt * eps) by (apply (Rmult_lt_reg_r (/ eps)); [apply Rinv_0_lt_compat; lra |];
+      rewrite (Rmult_assoc dt), Rinv_r by lra; unfold Rdiv in Hlt; lra).
+    apply (Rmult_lt_reg_r dt); [exact Hd |]. unfold Rdiv. rewrite !Rmult_assoc, Rinv_l by lra. nra.
+  Qed.
+End Limits1.
+
+(* ---- three branches *)
+Section Multi.
+  Variables (lss expm : M -> M) (p : @p8 R).
+  Hypothesis Htau : forall n, 0 < taub n p.
+  Hypothesis HG : forall n, 0 <= Gb n p.
+
+  Definition cb (n : nat) (H Fv : M) : R := Gb n p * nds (Etrial_mb lss H Fv).
+  Lemma cb_nonneg n H Fv : 0 <= cb n H Fv.
+  Proof. unfold cb. apply Rmult_le_pos; [apply HG | apply nds_nonneg]. Qed.
+
+  Lemma branch_energy n (E : M) dt : 0 < dt ->
+    Wneq_b n p (relax_b n p dt E) + dt * Psi_b n p (mdiv (inc_b n p dt E) dt) = Gb n p * nds E * fac dt (taub n p).
+  Proof.
+    intros Hd. pose proof (Htau n) as Ht. rewrite Wneq_b_form, Psi_b_form, relax_b_nds, rate_b_nds by assumption.
+    pose proof (den_ne dt _ Hd Ht). unfold fac. field. split; lra.
+  Qed.
+  Lemma branch_dissipation n (E : M) dt : 0 < dt ->
+    dt * Psi_b n p (mdiv (inc_b n p dt E) dt) = Gb n p * nds E * (dt / taub n p) * (fac dt (taub n p) * fac dt (taub n p))
+    /\ 0 <= dt * Psi_b n p (mdiv (inc_b n p dt E) dt).
+  Proof.
+    intros Hd. pose proof (Htau n) as Ht. rewrite Psi_b_form, rate_b_nds by assumption.
+    assert (E1 : dt * (Gb n p * taub n p * (fac dt (taub n p) / taub n p * (fac dt (taub n p) / taub n p) * nds E))
+                 = Gb n p * nds E * (dt / taub n p) * (fac dt (taub n p) * fac dt (taub n p))) by (field; lra).
+    split; [exact E1 |]. rewrite E1. destruct (fac_pos dt _ Hd Ht) as [F0 _]. pose proof (nds_nonneg E). pose proof (HG n).
+    assert (0 < dt / taub n p) by (apply Rdiv_lt_0_compat; lra).
+    apply Rmult_le_pos; [apply Rmult_le_pos; [apply Rmult_le_pos; lra | lra] | apply Rmult_le_pos; lra].
+  Qed.
+
+  Lemma E_mb_closed (Fv1 Fv2 Fv3 : M) dt (H : M) : 0 < dt ->
+    E_mb lss p Fv1 Fv2 Fv3 dt H
+    = E_mb_eq p H + cb 0 H Fv1 * fac dt (taub 0 p) + cb 1 H Fv2 * fac dt (taub 1 p) + cb 2 H Fv3 * fac dt (taub 2 p).
+  Proof.
+    intros Hd. rewrite E_mb_bridge. unfold cb.
+    rewrite <- (branch_energy 0 (Etrial_mb lss H Fv1) dt Hd), <- (branch_energy 1 (Etrial_mb lss H Fv2) dt Hd),
+            <- (branch_energy 2 (Etrial_mb lss H Fv3) dt Hd). ring.
+  Qed.
+
+  Lemma D_mb_nonneg (Fv1 Fv2 Fv3 : M) dt (H : M) : 0 < dt -> 0 <= D_mb lss p Fv1 Fv2 Fv3 dt H.
+  Proof.
+    intros Hd. unfold D_mb, D_mb_branch. unfold_num. q2r.
+    destruct (branch_dissipation 0 (Etrial_mb lss H Fv1) dt Hd) as [_ H1].
+    destruct (branch_dissipation 1 (Etrial_mb lss H Fv2) dt Hd) as [_ H2].
+    destruct (branch_dissipation 2 (Etrial_mb lss H Fv3) dt Hd) as [_ H3]. lra.
+  Qed.
+
+  Hypothesis Hexp : forall A : M, mdet (expm A) = exp (mtrace A).
+  Lemma state_new_b_det n (Fv : M) dt (H : M) : 0 < dt -> mdet (state_new_b n lss expm p Fv dt H) = mdet Fv.
+  Proof. intros Hd. unfold state_new_b. rewrite mdet_mmul, Hexp, inc_b_trace by (auto using Htau). rewrite exp_0. ring. Qed.
+
+  (* relaxation of every branch at held deformation *)
+  Variable H : M.
+  Hypothesis Hcoax : forall n (Fv : M) dt, 0 < dt ->
+    Etrial_mb lss H (state_new_b n lss expm p Fv dt H) = relax_b n p dt (Etrial_mb lss H Fv).
+  Lemma relaxation_step_b n (Fv : M) dt dt' : 0 < dt -> 0 < dt' ->
+    Wneq_reported_b n lss p (state_new_b n lss expm p Fv dt H) dt' H
+    = fac dt' (taub n p) * fac dt' (taub n p) * Wneq_reported_b n lss p Fv dt H
+    /\ Wneq_reported_b n lss p (state_new_b n lss expm p Fv dt H) dt' H <= Wneq_reported_b n lss p Fv dt H.
+  Proof.
+    intros Hd Hd'. pose proof (Htau n) as Ht. unfold Wneq_reported_b. rewrite Hcoax by assumption.
+    rewrite !Wneq_b_form, !relax_b_nds by assumption.
+    set (x := Gb n p * (fac dt (taub n p) * fac dt (taub n p) * nds (Etrial_mb lss H Fv))).
+    assert (Hx : 0 <= x).
+    { destruct (fac_pos dt _ Hd Ht). pose proof (nds_nonneg (Etrial_mb lss H Fv)). pose proof (HG n).
+      unfold x. apply Rmult_le_pos; [lra |]. apply Rmult_le_pos; [apply Rmult_le_pos; lra | lra]. }
+    replace (Gb n p * (fac dt' (taub n p) * fac dt' (taub n p) * (fac dt (taub n p) * fac dt (taub n p) * nds (Etrial_mb lss H Fv))))
+      with (fac dt' (taub n p) * fac dt' (taub n p) * x) by (unfold x; ring).
+    split; [reflexivity |]. destruct (fac_pos dt' _ Hd' Ht) as [F0 F1]. assert (fac dt' (taub n p) * fac dt' (taub n p) <= 1) by nra. nra.
+  Qed.
+End Multi.
+
+(* limits for the three-branch model *)
+Section Limits3.
+  Variables (lss : M -> M) (p : @p8 R) (Fv1 Fv2 Fv3 H : M).
+  Hypothesis Htau : forall n, 0 < taub n p.
+  Hypothesis HG : forall n, 0 <= Gb n p.
+  Let c0 := cb lss p 0 H Fv1. Let c1 := cb lss p 1 H Fv2. Let c2 := cb lss p 2 H Fv3.
+  Definition W_inst_mb : R := E_mb_eq p H + cb lss p 0 H Fv1 + cb lss p 1 H Fv2 + cb lss p 2 H Fv3.
+  Definition W_eq_mb : R := E_mb_eq p H.
+
+  Lemma mb_bound_small_dt dt : 0 < dt ->
+    Rabs (E_mb lss p Fv1 Fv2 Fv3 dt H - W_inst_mb) <= c0 * (dt / taub 0 p) + c1 * (dt / taub 1 p) + c2 * (dt / taub 2 p).
+  Proof.
+    intros Hd. unfold W_inst_mb. rewrite (E_mb_closed lss p Htau Fv1 Fv2 Fv3 dt H Hd). fold c0 c1 c2.
+    destruct (fac_bounds dt _ Hd (Htau 0)) as [[A1 A2] _]. destruct (fac_bounds dt _ Hd (Htau 1)) as [[B1 B2] _].
+    destruct (fac_bounds dt _ Hd (Htau 2)) as [[C1 C2] _].
+    pose proof (cb_nonneg lss p HG 0 H Fv1) as P0. pose proof (cb_nonneg lss p HG 1 H Fv2) as P1. pose proof (cb_nonneg lss p HG 2 H Fv3) as P2.
+    fold c0 in P0. fold c1 in P1. fold c2 in P2.
+    match goal with |- Rabs ?x <= _ => replace x with (- (c0 * (1 - fac dt (taub 0 p)) + c1 * (1 - fac dt (taub 1 p)) + c2 * (1 - fac dt (taub 2 p)))) by ring end.
+    assert (Q0 : 0 <= c0 * (1 - fac dt (taub 0 p)) <= c0 * (dt / taub 0 p)) by (split; [apply Rmult_le_pos | apply Rmult_le_compat_l]; lra).
+    assert (Q1 : 0 <= c1 * (1 - fac dt (taub 1 p)) <= c1 * (dt / taub 1 p)) by (split; [apply Rmult_le_pos | apply Rmult_le_compat_l]; lra).
+    assert (Q2 : 0 <= c2 * (1 - fac dt (taub 2 p)) <= c2 * (dt / taub 2 p)) by (split; [apply Rmult_le_pos | apply Rmult_le_compat_l]; lra).
+    rewrite Rabs_Ropp, Rabs_pos_eq by lra. lra.
+  Qed.
+  Lemma mb_bound_large_dt dt : 0 < dt ->
+    Rabs (E_mb lss p Fv1 Fv2 Fv3 dt H - W_eq_mb) <= c0 * (taub 0 p / dt) + c1 * (taub 1 p / dt) + c2 * (taub 2 p / dt).
+  Proof.
+    intros Hd. unfold W_eq_mb. rewrite (E_mb_closed lss p Htau Fv1 Fv2 Fv3 dt H Hd). fold c0 c1 c2.
+    destruct (fac_bounds dt _ Hd (Htau 0)) as [_ [A1 A2]]. destruct (fac_bounds dt _ Hd (Htau 1)) as [_ [B1 B2]].
+    destruct (fac_bounds dt _ Hd (Htau 2)) as [_ [C1 C2]].
+    pose proof (cb_nonneg lss p HG 0 H Fv1) as P0. pose proof (cb_nonneg lss p HG 1 H Fv2) as P1. pose proof (cb_nonneg lss p HG 2 H Fv3) as P2.
+    fold c0 in P0. fold c1 in P1. fold c2 in P2.
+    match goal with |- Rabs ?x <= _ => replace x with (c0 * fac dt (taub 0 p) + c1 * fac dt (taub 1 p) + c2 * fac dt (taub 2 p)) by ring end.
+    assert (Q0 : 0 <= c0 * fac dt (taub 0 p) <= c0 * (taub 0 p / dt)) by (split; [apply Rmult_le_pos | apply Rmult_le_compat_l]; lra).
+    assert (Q1 : 0 <= c1 * fac dt (taub 1 p) <= c1 * (taub 1 p / dt)) by (split; [apply Rmult_le_pos | apply Rmult_le_compat_l]; lra).
+    assert (Q2 : 0 <= c2 * fac dt (taub 2 p) <= c2 * (taub 2 p / dt)) by (split; [apply Rmult_le_pos | apply Rmult_le_compat_l]; lra).
+    rewrite Rabs_pos_eq by lra. lra.
+  Qed.
+End Limits3.
+
+(* ---- non-vacuity: the hypotheses on the un-modelled functions are jointly satisfiable (these instances are NOT the matrix
+   logarithm / exponential; the real functions are checked against the hypotheses on the implementation by the harness) *)
+Definition expm_iso (A : M) : M := mscal (exp (mtrace A / 3)) mid.
+Lemma expm_iso_det A : mdet (expm_iso A) = exp (mtrace A).
+Proof.
+  unfold expm_iso. set (e := exp (mtrace A / 3)). replace (mtrace A) with (mtrace A / 3 + mtrace A / 3 + mtrace A / 3) by field.
+  rewrite !exp_plus. fold e. cbv beta iota zeta delta [mdet mscal mid m00 m01 m02 m10 m11 m12 m20 m21 m22 nadd nsub nmul NumR nunit nzero nZ nconst Q2R' Qnum Qden inject_Z]. ring.
+Qed.
+Lemma hypotheses_satisfiable : exists (lss expm : M -> M),
+  (forall A : M, mdet (expm A) = exp (mtrace A))
+  /\ forall K G Gn tau (H Fv : M) dt, 0 < tau -> 0 < dt ->
+       Etrial lss H (state_new_hv lss expm (K, G, Gn, tau) Fv dt H) = relax_hv (K, G, Gn, tau) dt (Etrial lss H Fv).
+Proof.
+  exists (fun _ => mzero), expm_iso. split; [exact expm_iso_det |]. intros K G Gn tau H Fv dt Ht Hd.
+  pose proof (den_ne dt tau Hd Ht). dm H. dm Fv. cnum. f_equal; field; split; lra.
+Qed.
